@@ -19,6 +19,8 @@ import NfpmModel.Lemmas.VersionLemmas
         version strings compare under verrevcmp as the number triples do, whatever nfpm appends ('~', '+', '-')
     rpm_numeric_order / rpm_semver_order / rpm_parsed_versions_order / rpm_tail_noDigitHead
         the same under rpm's rpmvercmp (the rpm epoch is a header tag of its own, compared as an integer by rpm)
+    dpkg_compare_numeric / dpkg_compare_numeric_epoch
+        the numeric order decides dpkg's complete comparison too (upstream split at the last hyphen, equal epochs)
     dpkg_epoch_dominates / dpkg_epoch_over_none
         a lower epoch sorts first under dpkg's whole comparison whatever the version strings are;
         no epoch sorts before every positive epoch
@@ -750,5 +752,39 @@ theorem rpm_tail_noDigitHead (i : VInfo) : ∃ T, rpmVersion i = i.version ++ T 
   · right
     exact ⟨tilde, replaceByte minus [underscore] i.prerelease ++ (if i.metadata ≠ [] then plus :: i.metadata else []),
       by simp [hp], by decide⟩
+
+/-! ### dpkg's complete comparison: numeric order with revisions and epochs -/
+
+/-- **deb / ipk, full version strings with a revision**: the numeric order of the components decides dpkg's complete
+    comparison (epoch, upstream, revision) – `P.d1 A-r1 < P.d2 B-r2` for d1 < d2, every continuation A, B that does not
+    start with a digit (hyphens allowed: the split is at the last one) and all hyphen-free revisions -/
+theorem dpkg_compare_numeric (ps : List Bytes) (hps : ∀ d ∈ ps, DigitRun d) (d1 d2 : Bytes) (h1 : DigitRun d1)
+    (h2 : DigitRun d2) (A B : Bytes) (hA : NoDigitHead A) (hB : NoDigitHead B) (hlt : digitsVal d1 < digitsVal d2)
+    (r1 r2 : Bytes) (hr1 : minus ∉ r1) (hr2 : minus ∉ r2)
+    (hc1 : colon ∉ (dotted ps ++ (d1 ++ A)) ++ minus :: r1) (hc2 : colon ∉ (dotted ps ++ (d2 ++ B)) ++ minus :: r2) :
+    dpkgCompare ((dotted ps ++ (d1 ++ A)) ++ minus :: r1) ((dotted ps ++ (d2 ++ B)) ++ minus :: r2) < 0 := by
+  unfold dpkgCompare
+  rw [dpkgSplit_rev _ _ hc1 hr1, dpkgSplit_rev _ _ hc2 hr2]
+  simp only [cmpDigits_self, ne_eq, not_true_eq_false, if_false]
+  have h := dpkg_numeric_order ps hps d1 d2 h1 h2 A B hA hB hlt
+  have hne0 : verrevcmp (dotted ps ++ (d1 ++ A)) (dotted ps ++ (d2 ++ B)) ≠ 0 := by omega
+  simp only [hne0, not_false_eq_true, if_true]
+  exact h
+
+/-- … and the same with one epoch on both sides -/
+theorem dpkg_compare_numeric_epoch (e : Bytes) (he : colon ∉ e) (ps : List Bytes) (hps : ∀ d ∈ ps, DigitRun d)
+    (d1 d2 : Bytes) (h1 : DigitRun d1) (h2 : DigitRun d2) (A B : Bytes) (hA : NoDigitHead A) (hB : NoDigitHead B)
+    (hlt : digitsVal d1 < digitsVal d2) (r1 r2 : Bytes) (hr1 : minus ∉ r1) (hr2 : minus ∉ r2) :
+    dpkgCompare (e ++ colon :: ((dotted ps ++ (d1 ++ A)) ++ minus :: r1))
+      (e ++ colon :: ((dotted ps ++ (d2 ++ B)) ++ minus :: r2)) < 0 := by
+  unfold dpkgCompare
+  rw [dpkgSplit_epoch_rev _ _ _ he hr1, dpkgSplit_epoch_rev _ _ _ he hr2]
+  simp only [cmpDigits_self, ne_eq, not_true_eq_false, if_false]
+  have h := dpkg_numeric_order ps hps d1 d2 h1 h2 A B hA hB hlt
+  have hne0 : verrevcmp (dotted ps ++ (d1 ++ A)) (dotted ps ++ (d2 ++ B)) ≠ 0 := by omega
+  simp only [hne0, not_false_eq_true, if_true]
+  exact h
+
+example : dpkgCompare (b!"1:1.9.3~rc-1+git-4") (b!"1:1.10.0-1") < 0 := by decide
 
 end Nfpm.Props.C14
